@@ -162,6 +162,8 @@ def impl_index(mir):
                 idx["<%s as %s>::%s" % (tname, dm.group(0), method[2:])] = name
             continue
         trait, ty = mm.group(1), mm.group(2).split("::")[-1]
+        if not trait:
+            idx["#impl:" + m.group(0)] = ty
         method = name[m.end():]
         if not method.startswith("::"):
             continue
